@@ -114,6 +114,10 @@ def generate(seed: int, tier: str) -> Dict[str, Any]:
                 ops.append({"op": "load"})
         elif x < 0.8:
             ops.append({"op": "load"})
+            if r.chance(0.2):
+                # the fresh state carries a store the snapshot layer can neither export nor import (the runtime's own graph store):
+                # version and GEL graph are restored all the same
+                ops[-1]["fresh"] = "opaque"
         else:
             ops.append({"op": "clock", "ms": r.choice([1, 1000, 3_600_000, -5000, -86_400_000])})
     if not any(o["op"] == "load" for o in ops):
@@ -273,7 +277,10 @@ def execute(p: Dict[str, Any]) -> Dict[str, Any]:
                             bad("sidecar-unreadable", "op#%d: %r" % (oi, e))
                     continue
                 # ---- load ----
-                fresh: Dict[str, Any] = {"store": _W(), "version_etag": None}
+                opaque = op.get("fresh") == "opaque"
+                fresh: Dict[str, Any] = {"store": (object() if opaque else _W()), "version_etag": None}
+                if opaque:
+                    stats["loads_into_opaque_store"] = stats.get("loads_into_opaque_store", 0) + 1
                 ctx0 = types.SimpleNamespace(cfg=cfg, config=cfg, agent_id="loader", turn_id=0)
                 try:
                     res = esnap.load_latest_snapshot(ctx0, fresh)
@@ -306,7 +313,7 @@ def execute(p: Dict[str, Any]) -> Dict[str, Any]:
                 if str(fresh.get("version_etag")) != str(src["version"]):
                     bad("version-not-restored", "%s: state version %r" % (ctxs, fresh.get("version_etag")))
                 want_w = {tuple(kk.split("|")): float(v) for kk, v in src["weights"].items()}
-                if fresh["store"].w != want_w:
+                if not opaque and fresh["store"].w != want_w:
                     bad("weights-not-restored", "%s: %s vs %s" % (ctxs, fresh["store"].w, want_w))
                 g = fresh.get("graph") or {}
                 want_e = _expected_edges(src["gel"], lo, hi)
@@ -320,6 +327,8 @@ def execute(p: Dict[str, Any]) -> Dict[str, Any]:
                     bad("gel-nodes-not-restored", "%s: %s vs %s" % (ctxs, sorted((g.get("nodes") or {}).keys()), _expected_nodes(src["gel"])))
                 if fresh.get("gel") != fresh.get("graph"):
                     bad("gel-alias-differs", ctxs)
+                if opaque:
+                    continue   # (its re-snapshot cannot carry the weights: no fixpoint claim)
                 # ---- write the loaded state again: must reproduce the body byte for byte ----
                 ctx2 = types.SimpleNamespace(cfg=cfg, config=cfg, agent_id=src["agent"], turn_id=src["turn"])
                 again_dir = os.path.join(root, "again")
